@@ -89,14 +89,15 @@ type world struct {
 	futureFrom uint64 // unix time of the earliest future-dated block (0 = none)
 
 	// node under test
-	live    *chainkit.Importer
-	disk    *simdisk.Disk
+	live    *sut
+	leaked  bool // some node died in a panic and could not be stopped
 	queued  []*types.Block // blocks the live node holds in its future queue (harness view)
 	offers  []*offer
 	budget  int // restarts left
 	budget0 int
 	maxEnum int // per-offer cap of restarted images
 
+	fam         string // "@<window family>" while a crash image is being checked, else ""
 	sch         *sched
 	queueUnsure bool // an invalid variant entered the future queue: its content is not mirrored exactly
 }
@@ -212,16 +213,28 @@ func (cx *world) genTxs(br *branch) []*types.Transaction {
 	k := c.Intn("ntx", 4)
 	var txs []*types.Transaction
 	used := map[common.Address]uint64{}
+	// The worker orders the transactions of different senders by gas price and breaks ties in
+	// Go map order (pending is a map): all transactions of one block get pairwise distinct gas
+	// prices, so that the block is a function of the seed.
+	prices := map[int64]bool{}
 	for j := 0; j < k; j++ {
 		from := c.Intn("from", chainkit.NClients)
 		fa := chainworld.ClientAddr(from)
 		nonce := br.b.Pool.Nonce(fa) + used[fa]
 		var tx *types.Transaction
 		if cands := cx.bySN[senderNonce{fa, nonce}]; len(cands) > 0 && c.Chance("share-tx", 1, 2) {
-			tx = cands[c.Intn("share-which", len(cands))]
-		} else {
-			tx = makeTx(from, nonce, chainworld.ClientAddr(c.Intn("to", chainkit.NClients)), int64(1+c.Intn("amt", 1000)), int64(1+c.Intn("gp", 3)))
+			if t := cands[c.Intn("share-which", len(cands))]; !prices[t.GasPrice().Int64()] {
+				tx = t
+			}
 		}
+		if tx == nil {
+			gp := int64(1 + c.Intn("gp", 40))
+			for prices[gp] {
+				gp++
+			}
+			tx = makeTx(from, nonce, chainworld.ClientAddr(c.Intn("to", chainkit.NClients)), int64(1+c.Intn("amt", 1000)), gp)
+		}
+		prices[tx.GasPrice().Int64()] = true
 		used[fa]++
 		txs = append(txs, tx)
 	}
@@ -295,14 +308,16 @@ func (cx *world) planTree() {
 		if last > uint64(d) {
 			fork = last - uint64(d)
 		}
-		if p == 0 {
-			// trunk: fork at genesis allowed
-		} else if fork < first {
-			fork = first // a nested branch shares at least one block of its parent
-		}
 		if fork >= last {
 			fork = last - 1
 		}
+		// a fork point below the parent's own blocks is a fork off an ancestor branch
+		for p != 0 && fork < cx.plans[p].fork+1 {
+			p = cx.plans[p].parent
+		}
+		pp = cx.plans[p]
+		last = pp.fork + uint64(pp.length)
+		_ = first
 		depth := int(last - fork)
 		// length relative to what it competes with: shorter, equal, longer
 		var ln int
